@@ -76,6 +76,11 @@ ASSUMPTIONS = [
 ]
 TRUSTED = [
     "Gen.C13.gauss regenerated from fitting.elliptical_gaussian by py2lean.py (real mode), validated numerically each run",
+    "Gen.C13.ampMinPos/ampMaxPos/ampMinNeg/ampMaxNeg (the four amplitude-bound expressions) and Gen.C13.summitArgPos/"
+    "summitArgNeg (the thresholded quantities of the summit masks) sliced out of estimate_lmfit_parinfo by "
+    "translator/targets/C13.py (which checks the branch structure: `amp > 0`, `isnegative`, the curvature tests, `< 0` / `> 0`) "
+    "and translated by py2lean.py; validated numerically each run and, assembled by the hand-written glue ampBounds / "
+    "summitMask, compared exactly with the real estimate_lmfit_parinfo on every island",
     "hand model Aegean/Model/C13.lean of find_islands (masks), _fit_island (curvature window), estimate_lmfit_parinfo "
     "and the polarity test, tied to the code by this sampled correspondence",
 ]
@@ -836,7 +841,7 @@ def judge(ctx, todo, outs):
         elif kind == 'gauss':
             g = common.h2f(line)
             if not common.close(g, obj, rel=1e-12, abs_=1e-300):
-                raise common.LeanError(f"translator self-validation: Gen.C13.gauss = {g!r}, elliptical_gaussian = {obj!r} "
+                raise common.LeanError(f"translator self-validation: Lean (Float) = {g!r}, the Python it was translated from = {obj!r} "
                                        f"for {case}")
 
 
@@ -1090,6 +1095,50 @@ def gauss_validation(ctx, lines, todo):
         todo.append(('gauss', a, float(fitting.elliptical_gaussian(*a))))
 
 
+def leaf_validation(ctx, lines, todo):
+    """the regenerated leaves of estimate_lmfit_parinfo (Float) vs the Python slices they were translated from"""
+    sys_path = os.path.join(common.VERIF, 'translator')
+    import sys
+    if sys_path not in sys.path:
+        sys.path.insert(0, sys_path)
+    import importlib.util
+    spec = importlib.util.spec_from_file_location('targets_C13_live', os.path.join(sys_path, 'targets', 'C13.py'))
+    tg = importlib.util.module_from_spec(spec)
+    spec.loader.exec_module(tg)
+    status = ctx.extra.get('translator') or {}
+    src = open(tg._S).read().replace('return amp_min', 'return (amp_min, amp_max)')
+    ns = {}
+    try:
+        exec(compile(src, tg._S, 'exec'), ns)
+    except Exception:
+        return
+    rng = ctx.rng
+    for _ in range(25):
+        amp, r, inner, outer, samp = (rng.choice([-1, 1]) * rng.uniform(0.1, 50), rng.uniform(0.01, 3), rng.uniform(3, 10),
+                                      rng.uniform(2, 6), rng.uniform(1.05, 1.4))
+        for fn, lo, hi in (('amp_pos', 'ampMinPos', 'ampMaxPos'), ('amp_neg', 'ampMinNeg', 'ampMaxNeg')):
+            if status.get(lo) != 'translated':
+                continue
+            ns['rmsimg'], ns['xo'], ns['yo'] = {(0, 0): r}, 0, 0
+            try:
+                vmin, vmax = ns[fn](amp, r, inner, outer, samp)
+            except Exception:
+                continue
+            for name, v in ((lo, vmin), (hi, vmax)):
+                lines.append(f"leaf {name} " + " ".join(common.f2h(x) for x in (amp, r, inner, outer, samp)))
+                todo.append(('gauss', (name, amp, r, inner, outer, samp), float(v)))
+        d = rng.choice([-1, 1]) * rng.uniform(0.1, 50)
+        for fn, name in (('summit_pos', 'summitArgPos'), ('summit_neg', 'summitArgNeg')):
+            if status.get(name) != 'translated':
+                continue
+            try:
+                v = ns[fn](d, r, inner, outer)
+            except Exception:
+                continue
+            lines.append(f"leaf {name} " + " ".join(common.f2h(x) for x in (d, r, inner, outer)))
+            todo.append(('gauss', (name, d, r, inner, outer), float(v)))
+
+
 def new_stats():
     return dict(worst=0.0, worst_by_field={})
 
@@ -1110,6 +1159,7 @@ def run(ctx):
     stats = new_stats()
     if ctx.driver_ok:
         gauss_validation(ctx, lines, todo)
+        leaf_validation(ctx, lines, todo)
     # corpus
     image_case(ctx, WITNESS_MIXED, lines, todo, stats, full_polarity=False, debug=True)
     image_case(ctx, WITNESS_APART, lines, todo, stats, full_polarity=True, debug=True)
